@@ -323,6 +323,110 @@ fn sub_edge_ids(input: &[u8], st: &mut Stats) -> R {
     check_history(&h, st)
 }
 
+/// histories in which type ids are declared more than once (invalid SPIR-V, but "any binary"):
+/// (1) the parser must follow one consistent reading - the latest preceding declaration or
+/// the first one - for the whole binary; (2) metamorphic: inserting an unrelated value
+/// definition (not a type declaration, not the defining instruction of any selector) changes
+/// no consumer's outcome.
+fn sub_redeclared(input: &[u8], st: &mut Stats) -> R {
+    let mut cs = Cs::new(input);
+    let mut h = gen_history(&mut cs);
+    let type_pos: Vec<usize> = h.items.iter().enumerate().filter(|(_, i)| matches!(i, Item::TypeInt { .. } | Item::TypeFloat { .. })).map(|(k, _)| k).collect();
+    let mut redeclared = 0;
+    if type_pos.len() >= 2 {
+        let n = 1 + cs.below(2);
+        for _ in 0..n {
+            let a = type_pos[cs.below(type_pos.len())];
+            let b = type_pos[cs.below(type_pos.len())];
+            if a == b {
+                continue;
+            }
+            let target = match &h.items[a] {
+                Item::TypeInt { id, .. } | Item::TypeFloat { id, .. } => *id,
+                _ => unreachable!(),
+            };
+            match &mut h.items[b] {
+                Item::TypeInt { id, .. } | Item::TypeFloat { id, .. } => *id = target,
+                _ => unreachable!(),
+            }
+            redeclared += 1;
+        }
+    }
+    // extra declarations of an existing type id with another width, next to value definitions
+    if !type_pos.is_empty() && cs.bool() {
+        let a = type_pos[cs.below(type_pos.len())];
+        let target = match &h.items[a] {
+            Item::TypeInt { id, .. } | Item::TypeFloat { id, .. } => *id,
+            _ => unreachable!(),
+        };
+        let at = cs.below(h.items.len() + 1);
+        let width = [8u32, 16, 32, 64, 64, 128][cs.below(6)];
+        h.items.insert(at, if cs.bool() { Item::TypeInt { id: target, width, sign: 0 } } else { Item::TypeFloat { id: target, width: width.max(16), enc: false } });
+        redeclared += 1;
+    }
+    if redeclared > 0 {
+        st.count("histories_with_redeclared_type_id");
+    }
+    let words = h.words();
+    let bytes = words_to_bytes(&words);
+    let dec = || h.render();
+    // (1) one consistent reading
+    let latest = c03::check_bytes(&bytes, &mut Stats::new(), &dec);
+    match latest {
+        Ok(_) => {
+            c03::check_bytes(&bytes, st, &dec)?;
+        }
+        Err(f) => {
+            let first = with_first_wins(|| c03::check_bytes(&bytes, &mut Stats::new(), &dec));
+            if first.is_err() {
+                return Err(f);
+            }
+            st.count("consistent_with_first_declaration_wins_only");
+        }
+    }
+    // (2) insertion of an unrelated value definition
+    let base = outcome_consumers(&words)?;
+    let at = cs.below(h.items.len() + 1);
+    let ty = match cs.below(3) {
+        0 => 3000 + cs.below(4) as u32,
+        _ => h.items.iter().filter_map(|i| match i {
+            Item::TypeInt { id, .. } | Item::TypeFloat { id, .. } => Some(*id),
+            _ => None,
+        }).nth(cs.below(4)).unwrap_or(3000),
+    };
+    let mut h2 = History { items: h.items.clone() };
+    h2.items.insert(at, Item::Value { op: 1, ty, id: 4000, extra: vec![] });
+    let with = outcome_consumers(&h2.words())?;
+    if base != with {
+        return Err(Fail::new(
+            "unrelated-instruction-changes-width",
+            "Undef",
+            format!("inserting `%4000 = OpUndef %{}` at position {} changes what the literal consumers deliver: {:?} vs {:?}", ty, at, base, with),
+        )
+        .with_decoded(h.render()));
+    }
+    if redeclared > 0 {
+        st.nontrivial(hash_words(&words));
+    }
+    Ok(())
+}
+
+/// what the parser delivers for the literal consumers (and how the parse ends, without position)
+fn outcome_consumers(words: &[u32]) -> Result<(Vec<String>, String), Fail> {
+    let (c, r) = parse_words_collect(words)?;
+    let v = c
+        .insts
+        .iter()
+        .filter(|i| matches!(i.class.opname, "Constant" | "SpecConstant" | "Switch"))
+        .map(show_inst)
+        .collect();
+    let end = match r {
+        Ok(()) => "ok".to_string(),
+        Err(e) => state_name(&e),
+    };
+    Ok((v, end))
+}
+
 /// the decision depends only on the current parse: B after A == B alone; A twice equal
 fn sub_independence(input: &[u8], st: &mut Stats) -> R {
     let mut cs = Cs::new(input);
@@ -392,6 +496,7 @@ pub const SUBS: &[Sub] = &[
     Sub { name: "histories", f: sub_histories },
     Sub { name: "independence", f: sub_independence },
     Sub { name: "edge-ids", f: sub_edge_ids },
+    Sub { name: "redeclared-ids", f: sub_redeclared },
 ];
 
 pub fn run(ctx: &Ctx) {
@@ -400,14 +505,15 @@ pub fn run(ctx: &Ctx) {
     drive_random(ctx, &SUBS[1], ctx.n(60_000, 30_000_000), 600);
     drive_random(ctx, &SUBS[2], ctx.n(1_000, 150_000), 1200);
     drive_random(ctx, &SUBS[3], ctx.n(20_000, 10_000_000), 600);
+    drive_random(ctx, &SUBS[4], ctx.n(20_000, 10_000_000), 600);
 }
 
 pub fn finish(ctx: &Ctx) -> i32 {
     crate::engine::finish(
         ctx,
         Finish {
-            rule: "cases: (a) complete grid: {int,float} x widths {8,16,32,64,1,24,48,128,0} x signedness x consumer {OpConstant, OpSpecConstant, OpSwitch with 2 cases} x {1,2} literal words x propagation depth 0-2 x distance 0-2; (b) random histories of 2-15 instructions interleaving OpTypeInt/OpTypeFloat (supported and unsupported widths), typed values (OpUndef/OpVariable/OpLoad/OpIAdd chains), consumers placed before/after their declarations, each encoded with 1 or 2 literal words, and unrelated instructions; ids defined once; (b') the same histories under a bijective id renaming that sends 1-3 defined ids to 0 / 0x7fffffff / 0x80000000 / 0xffffffff; (c) pairs (A, B): B after A in the same thread vs B alone in a fresh thread, A twice. Oracle: model R3 (inside reference parser R1): words consumed / TypeUnsupported / accept-or-reject of each consumer, delivered variant LiteralBit32 vs LiteralBit64 with value = low | high<<32, assemble emits the input's word count, outcomes independent of earlier parses. non-trivial = consumer whose type was declared >= 2 instructions earlier or reaches it through >= 1 propagation step (independence: every pair); distinct = hash of the words.",
-            assumptions: vec!["ids are defined once (generators respect it)".into()],
+            rule: "cases: (a) complete grid: {int,float} x widths {8,16,32,64,1,24,48,128,0} x signedness x consumer {OpConstant, OpSpecConstant, OpSwitch with 2 cases} x {1,2} literal words x propagation depth 0-2 x distance 0-2; (b) random histories of 2-15 instructions interleaving OpTypeInt/OpTypeFloat (supported and unsupported widths), typed values (OpUndef/OpVariable/OpLoad/OpIAdd chains), consumers placed before/after their declarations, each encoded with 1 or 2 literal words, and unrelated instructions; ids defined once; (b') the same histories under a bijective id renaming that sends 1-3 defined ids to 0 / 0x7fffffff / 0x80000000 / 0xffffffff; (b'') histories in which type ids are declared more than once: the parser must follow one consistent reading for the whole binary (latest preceding declaration, or first), and inserting an unrelated OpUndef anywhere must not change what any consumer delivers; (c) pairs (A, B): B after A in the same thread vs B alone in a fresh thread, A twice. Oracle: model R3 (inside reference parser R1): words consumed / TypeUnsupported / accept-or-reject of each consumer, delivered variant LiteralBit32 vs LiteralBit64 with value = low | high<<32, assemble emits the input's word count, outcomes independent of earlier parses. non-trivial = consumer whose type was declared >= 2 instructions earlier or reaches it through >= 1 propagation step (independence: every pair); distinct = hash of the words.",
+            assumptions: vec!["ids are defined once except in `redeclared-ids`, where the statement leaves open which declaration decides and both consistent readings are accepted".into()],
             trusted_base: vec!["width model R3".into(), "reference parser R1".into()],
         },
     )
